@@ -703,3 +703,8 @@ def finish(ctx):
   ctx.need("control:assigned-before-first-read", 500)
   ctx.need("control:mode-direct", 500)
   ctx.need("control:mode-expression", 500)
+
+
+# extension family (bug hunt), see props/c16_x.py
+from props import c16_x as _x, ext as _ext  # noqa: E402
+_ext.install(globals(), _x)
